@@ -78,7 +78,16 @@ ASSUMPTIONS = [
     "(StaticVec / arrays are non-empty)",
     "the list is mounted (KeyedState.parent = Some) when it is rebuilt",
 ]
-LEVEL_TEXT = "proof"
+LEVEL_TEXT = ("Unbounded Coq proof (no bound on list lengths, key alphabet, row size or number of updates) over an executable "
+              "Gallina transcription of tachys' keyed diff / group_adjacent_moves / unpack_moves / apply_diff and the keyed "
+              "build/mount/rebuild/unmount, with rows abstracted as any fresh non-empty node list: for duplicate-free key "
+              "sequences the children end in exactly the new order between untouched siblings, retained keys keep their nodes, "
+              "removed rows are unmounted, new rows are built once, every row whose index changed is told its new index, and the "
+              "state invariant is preserved along any history of updates. Tied to /repo by running the extracted model and the "
+              "real tachys keyed() (rows of 1-3 nodes and rows that are or start with lists / Option / Either / arrays) and the "
+              "real leptos <For> / <ForEnumerate> (stateful rows; over a keyed store field) on the native in-memory DOM, on all "
+              "canonical key-sequence pairs up to length 6 plus random longer ones and histories, with the property statement "
+              "checked directly in Python as oracle. Row state retention and store-backed lists are compared, not proved.")
 LEVEL_NOTE = ("unbounded machine-checked proof for all duplicate-free key sequences, all item sizes m >= 1, all sibling "
               "contexts and all histories, of a transcription of the repaired diff/apply_diff; transcription tied to "
               "the code by differential testing")
